@@ -4,8 +4,12 @@ import (
 	"fmt"
 
 	sdk "github.com/cosmos/cosmos-sdk/types"
+	authtypes "github.com/cosmos/cosmos-sdk/x/auth/types"
 	vestingtypes "github.com/cosmos/cosmos-sdk/x/auth/vesting/types"
 	banktypes "github.com/cosmos/cosmos-sdk/x/bank/types"
+	distrtypes "github.com/cosmos/cosmos-sdk/x/distribution/types"
+	govtypes "github.com/cosmos/cosmos-sdk/x/gov/types"
+	govv1 "github.com/cosmos/cosmos-sdk/x/gov/types/v1"
 
 	"verifharness/simnet"
 	"verifharness/world"
@@ -84,5 +88,72 @@ func (g *G) genBurnTx() *world.TxStep {
 		note = "create-periodic-vesting-at-burn"
 	}
 	signers, how := g.signersFor([]sdk.Msg{msg}, 0, 95, false)
+	return &world.TxStep{Msgs: []world.MsgJSON{world.EncodeMsg(msg)}, Signers: signers, Fee: g.fee("fee"), Note: note + " signers=" + how}
+}
+
+// genGovTx draws one step of the governance route by which coins reach the burn address from
+// inside EndBlock: fund the community pool, submit a proposal whose message pays the burn
+// address out of the pool, vote with the bonded delegator (account 0). The proposal executes
+// in the EndBlock of the first block whose time is past the voting period.
+func (g *G) genGovTx() *world.TxStep {
+	w := g.W
+	ctx := w.C.Ctx()
+	burn, _ := sdk.AccAddressFromBech32(world.BurnAddress)
+	govAddr := authtypes.NewModuleAddress(govtypes.ModuleName)
+	var voting []uint64
+	w.C.App.GovKeeper.IterateProposals(ctx, func(p govv1.Proposal) bool {
+		if p.Status == govv1.StatusVotingPeriod {
+			voting = append(voting, p.Id)
+		}
+		return false
+	})
+	pool, _ := w.C.App.DistrKeeper.GetFeePoolCommunityCoins(ctx).TruncateDecimal()
+	kind := g.weighted("gov-kind", "fund", 2, "submit", 4, "vote", 5)
+	if kind == "vote" && len(voting) == 0 {
+		kind = "submit"
+	}
+	if kind == "submit" && pool.IsZero() && g.chance("fund-first", 80) {
+		kind = "fund"
+	}
+	var msg sdk.Msg
+	note := ""
+	switch kind {
+	case "fund":
+		msg = distrtypes.NewMsgFundCommunityPool(g.coinsFor("fund"), w.Accts[g.acct("depositor")].Addr)
+		note = "fund-community-pool"
+	case "submit":
+		amt := sdk.NewCoins()
+		for _, c := range pool {
+			if g.chance("spend-"+c.Denom, 60) {
+				a := c.Amount
+				if g.chance("spend-part", 60) && a.GT(sdk.OneInt()) {
+					a = a.QuoRaw(int64(2 + g.intn("spend-div", 5)))
+				}
+				amt = amt.Add(sdk.NewCoin(c.Denom, a))
+			}
+		}
+		if amt.IsZero() {
+			amt = sdk.NewCoins(sdk.NewInt64Coin(simnet.FeeDenom, int64(1+g.intn("spend-amt", 1000))))
+		}
+		spend := &distrtypes.MsgCommunityPoolSpend{Authority: govAddr.String(), Recipient: burn.String(), Amount: amt}
+		dep := sdk.NewCoins(sdk.NewInt64Coin(simnet.BondDenom, int64(pick(g, "deposit", []int{10000000, 10000000, 20000000, 5000000}))))
+		m, err := govv1.NewMsgSubmitProposal([]sdk.Msg{spend}, dep, w.Accts[g.acct("proposer")].Addr.String(), "", "pay the burn address", "community pool spend to the burn address")
+		if err != nil {
+			panic(err)
+		}
+		msg, note = m, "submit-proposal-paying-burn-address"
+	default:
+		voter := 0
+		if g.chance("other-voter", 10) {
+			voter = g.acct("voter")
+		}
+		opt := govv1.OptionYes
+		if g.chance("vote-no", 12) {
+			opt = pick(g, "vote-option", []govv1.VoteOption{govv1.OptionNo, govv1.OptionNoWithVeto, govv1.OptionAbstain})
+		}
+		msg = govv1.NewMsgVote(w.Accts[voter].Addr, pick(g, "proposal", voting), opt, "")
+		note = "vote-" + opt.String()
+	}
+	signers, how := g.signersFor([]sdk.Msg{msg}, 0, 97, false)
 	return &world.TxStep{Msgs: []world.MsgJSON{world.EncodeMsg(msg)}, Signers: signers, Fee: g.fee("fee"), Note: note + " signers=" + how}
 }
